@@ -24,11 +24,46 @@ def run(ck):
                              "%s changed more than the annotation" % op)
 
     s.after_apply.append(erasure)
+    pe_corr = {"same": 0, "differ": 0}
+
+    def expand(sx, defs):
+        import re
+        for _ in range(8):
+            sx2 = re.sub(r"\(call (p\d+) ", lambda m: "(call " + defs.get(m.group(1), m.group(1)) + " ", sx)
+            if sx2 == sx:
+                return sx
+            sx = sx2
+        return sx
+
+    def pe_model(p, q, op, descr, site, replay):
+        # correspondence of the Gallina rewrite model PartialEval.pe_proc (about which C19_partial_eval_* are
+        # proved) with the real Procedure.partial_eval: identical terms
+        if op != "partial_eval":
+            return
+        nm, v = descr.split("=")
+        arg = [a for a in p._loopir_proc.args if str(a.name) == nm][0]
+        lit = "(bool %s)" % v.lower() if v in ("True", "False") else "(int %s)" % v
+        name = s.sc.ref(p)
+        ex = s.sc.ex
+        model = s.sc.interp.ask("(pe %s %s %s)" % (name, ex.sym(arg.name), lit))
+        real = ex.proc_sexp(q._loopir_proc)
+        defs = {n: sx for (n, sx) in ex.procs.values()}
+        ck.case("partial_eval-model-vs-impl", (replay["program"], descr), sample={"arg": nm, "value": v})
+        if expand(model, defs) == expand(real, defs):
+            pe_corr["same"] += 1
+            ck.corr_agree("partial_eval-model-vs-impl")
+        else:
+            pe_corr["differ"] += 1
+            ck.corr_diverge("partial_eval-model-vs-impl", {"program": replay["program"], "source": replay["source"],
+                                                           "arg": nm, "value": v, "model": model, "impl": real})
+
+    s.after_apply.append(pe_model)
     findings = s.run(n_programs=ck.n(40, 500), budget_s=ck.n(80, 900))
     for f in findings:
         ck.violation(f.key, f.replay, "%s at %s: %s" % (f.op, f.site, f.detail))
     ck.cov["search"] = s.stats
     ck.cov["annotation_erasure"] = erased
+    ck.cov["partial_eval_model_correspondence"] = pe_corr
     ck.cov["inputs_run_in_reference_semantics"] = s.sc.runs
     ck.cov["rule"] = ("generated procedures x {partial_eval of every control argument with sampled values, transpose of every 2-D "
                       "argument, add_assertion, rename, set_precision, set_memory, set_window, parallelize_loop}; inputs related "
